@@ -89,6 +89,22 @@ CLAIMED = {
         text="Grammar.Occurrences gives the pre-order identifier list with classes; for every WF sequence the ten "
              "iterators of the real tree must equal its filters.",
         note=TRUST, tech="TLC-enumerated trees + iterator conformance", ref="5 C14"),
+    "C15": dict(
+        text="Type level: rust/sendsync holds Send + Sync assertions for the eight public types (decided by the type checker, a "
+             "compile error is the violation). Design level: Conc.tla, TLC explores every interleaving of three reader threads and "
+             "an exclusive writer and checks that each result is the sequential one and readers never change the context. Code "
+             "level: real threads share Arc'd trees and one context; every distinct (program, entry point, result) is validated "
+             "as an event of Trace_Api.tla.",
+        note=TRUST + " Real schedules are sampled, not enumerated; the type-level half is decided by rustc, not by TLC.",
+        tech="rustc Send+Sync assertions + TLC interleaving model + trace validation of multi-threaded runs", ref="5 C15"),
+    "C16": dict(
+        text="Node half: every enumerated source is deserialised through RON and compared with build_operator_tree (equal trees / "
+             "equal messages). Context half: SerdeProjection is an action of MC_Ctx.tla (same variables and switch, no "
+             "functions); histories with a serialise + deserialise step after every reachable state and every pool value are "
+             "replayed by a separate harness built with the repository's toolchain and the serde feature. Missing impls = the "
+             "harness does not compile = violation.",
+        note=TRUST + " Trusted: the ron 0.8 text format. Existence of the impls is decided by rustc.",
+        tech="TLC context model with a serde action + RON round-trip conformance", ref="5 C16"),
 }
 
 checks = []
